@@ -141,16 +141,78 @@ structure TBDrv where
   lastObs : Option TBSpec.Obs := none
   pending : Option TBPending := none
   dead : Bool := false
+  diverged : Bool := false     -- model and implementation have disagreed in this history: monitors only from here on
   mon : TBSpec.Mon := {}
   cnt : Counter := {}
   classes : Counter := {}
   mismatches : Nat := 0
 
-def TBDrv.kill (d : TBDrv) : TBDrv := { d with dead := true, pending := none }
+/-- after a disagreement the model's state says nothing about the implementation any more; the property monitors, which
+look only at the implementation's own answers and snapshots, go on to the end of the history -/
+def TBDrv.kill (d : TBDrv) : TBDrv := { d with diverged := true, model := none, pending := none }
+
+/-- monitor-only replay of one line (labels and outcomes are the implementation's) -/
+def tbLineMon (d : TBDrv) (lineNo : Nat) (ts : List String) : TBDrv × List String :=
+  let viol (d : TBDrv) (vs : List String) (ln : Nat) : TBDrv × List String :=
+    ({ d with classes := vs.foldl (fun c v => c.bump v) d.classes },
+     vs.map (fun c => s!"MONITOR {c} layer=tb hist={d.hist} line={ln}"))
+  let (pre, post) := splitBar ts
+  let op (label : String) (membership : Bool) (setPending : Bool := true) : TBDrv × List String :=
+    let ok := post == ["ok"] || post.isEmpty
+    ({ d with pending := if setPending then some { label := label, line := lineNo, implOk := ok, membership := membership } else d.pending,
+              mon := TBSpec.noteOp d.mon label pre ok d.lastObs }, [])
+  match pre with
+  | "reserve" :: _ => op "reserve" true
+  | "join" :: _ => op "join" true
+  | "redeem" :: _ => op "redeem" true
+  | "leave" :: _ => op "leave" true
+  | "update" :: _ => op "update" true
+  | ["blind", _] => op "blind" false
+  | ["pause"] => op "pause" false
+  | ["close"] => op "close" false
+  | ["release"] => op "release" false
+  | ["start"] => op "start" false
+  | ["burst-end"] => ({ d with pending := some { label := "burst-end", line := lineNo, implOk := true, membership := false } }, [])
+  | ["autojoin"] => (d, [])
+  | "setup" :: _ => op "setup" false
+  | "finish" :: _ => op "finish" false (setPending := false)
+  | "fire" :: _ =>
+    let ms := post.headD "nothing"
+    ({ d with pending := some { label := "fire." ++ ms, line := lineNo, implOk := true, membership := false },
+              mon := TBSpec.noteOp d.mon ("fire." ++ ms) pre true d.lastObs }, [])
+  | "snap-opened" :: rest =>
+    match parseTObs d.cfg rest with
+    | some o =>
+      let (mon', vs) := TBSpec.onOpenedSnap d.mon o
+      viol { d with mon := mon' } vs lineNo
+    | none => (d, [s!"BADLINE {lineNo} snap-opened"])
+  | "opts" :: rest =>
+    let (mon', vs) := TBSpec.onOpts d.mon rest
+    viol { d with mon := mon' } vs lineNo
+  | "settle" :: rest =>
+    match ((kv rest "res").map commaList).bind (fun l => l.mapM (fun c => match c.splitOn ":" with
+        | [a, b] => do pure ((← a.toNat?), (← b.toInt?))
+        | _ => none)) with
+    | some res =>
+      ({ d with mon := TBSpec.noteSettle d.mon res, pending := some { label := "settle", line := lineNo, implOk := true, membership := false } }, [])
+    | none => (d, [s!"BADLINE {lineNo}"])
+  | "continue" :: _ =>
+    let ms := post.headD "nothing"
+    ({ d with pending := some { label := "continue." ++ ms, line := lineNo, implOk := true, membership := false },
+              mon := TBSpec.noteOp d.mon ("continue." ++ ms) pre true d.lastObs }, [])
+  | "obs" :: rest =>
+    match parseTObs d.cfg rest with
+    | none => (d, [s!"BADLINE {lineNo} tb-obs"])
+    | some o =>
+      let p := d.pending.getD { label := "?", line := lineNo, implOk := true, membership := false }
+      let (mon', vs) := TBSpec.onObs d.mon p.label p.implOk p.membership d.lastObs o
+      let (d, out) := viol { d with mon := mon' } vs p.line
+      ({ d with lastObs := some o, pending := none }, out)
+  | _ => (d, [s!"BADLINE {lineNo} unknown-tb-op"])
 
 def modeOf (s : String) : Mode := if s == "mtt" then .mtt else if s == "cash" then .cash else .ct
 
-def tbLine (d : TBDrv) (lineNo : Nat) (ts : List String) : TBDrv × List String :=
+def tbLineCore (d : TBDrv) (lineNo : Nat) (ts : List String) : TBDrv × List String :=
   let mism (d : TBDrv) (msg : String) : TBDrv × List String :=
     ({ d.kill with mismatches := d.mismatches + 1 }, [s!"MISMATCH tb hist={d.hist} line={lineNo} {msg}"])
   let viol (d : TBDrv) (vs : List String) (ln : Nat) : TBDrv × List String :=
@@ -164,14 +226,23 @@ def tbLine (d : TBDrv) (lineNo : Nat) (ts : List String) : TBDrv × List String 
                           mode := modeOf ((kv rest "mode").getD "ct") }
       let h := (kvNat rest "h").getD (d.hist + 1)
       ({ d with hist := h, cfg := cfg, model := some (create cfg b), lastObs := none, pending := some { label := "new", line := lineNo, implOk := true, membership := false },
-                dead := false, mon := {}, cnt := (d.cnt.bump "histories").bump s!"seats{n}" }, [])
+                dead := false, diverged := false, mon := {}, cnt := (d.cnt.bump "histories").bump s!"seats{n}" }, [])
     | _, _, _ => (d, [s!"BADLINE {lineNo} tb-new"])
   | "end" :: _ => ({ d with model := none, pending := none }, [])
   | "hang" :: _ =>
     let (d, o) := viol d ["C16.engine-hang"] lineNo
     ({ d with model := none, pending := none }, o)
+  | "abort" :: _ =>
+    -- the harness dropped this history (the gate's 2 s timer fired while it was starved of CPU): nothing is judged
+    ({ d with model := none, pending := none, dead := true, cnt := d.cnt.bump "dropped-by-harness" }, [])
+  | "crash" :: rest =>
+    -- the engine panicked in one of its own goroutines while this history ran (re-run alone, it panicked again)
+    let (d, o) := viol d ["CRASH.engine-panic"] lineNo
+    ({ d with model := none, pending := none, mismatches := d.mismatches + 1, cnt := d.cnt.bump "crashed" },
+     [s!"MISMATCH tb hist={d.hist} line={lineNo} engine panicked: {" ".intercalate rest}"] ++ o)
   | _ =>
   if d.dead then (d, []) else
+  if d.diverged then tbLineMon d lineNo ts else
   match d.model with
   | none => (d, [s!"BADLINE {lineNo} no-tb-history"])
   | some m =>
@@ -312,6 +383,14 @@ def tbLine (d : TBDrv) (lineNo : Nat) (ts : List String) : TBDrv × List String 
         ({ d with model := some (TB.normalize m), lastObs := some o, pending := none }, out2)
       else ({ d.kill with mismatches := d.mismatches + 1, lastObs := some o }, out1 ++ out2)
   | _ => (d, [s!"BADLINE {lineNo} unknown-tb-op"])
+
+/-- one trace line; a line on which model and implementation part ways is still shown to the monitors -/
+def tbLine (d : TBDrv) (lineNo : Nat) (ts : List String) : TBDrv × List String :=
+  let (d', out) := tbLineCore d lineNo ts
+  if !d.diverged && d'.diverged && !d'.dead && ts.head? != some "obs" && ts.head? != some "opts" && ts.head? != some "crash" then
+    let (d'', out2) := tbLineMon d' lineNo ts
+    (d'', out ++ out2)
+  else (d', out)
 
 def TBDrv.summary (d : TBDrv) : List String :=
   [s!"SUMMARY tb mismatches={d.mismatches} {d.cnt.render}", s!"CLASSES tb {d.classes.render}"]
